@@ -10,7 +10,8 @@ from . import source
 from .engine import (Interp, Unsupported, PathEnd, PyRaise, _Return, _Break, _Continue, GenObj,
                      LazyGenExp)
 from .sval import SList, MRef, SBytes, SOpt, ExcVal, fresh, iv, I
-from .contracts import havoc_like, havoc_loc, mk
+from .contracts import havoc_like, havoc_loc, mk, T
+from .engine import STALE
 
 
 class LoopSpec:
@@ -38,6 +39,9 @@ def _spec(self, n):
 
 
 def _establish(self, k, spec, when):
+    for name, t in spec.locals.items():
+        if isinstance(t, T.Known) and name in self.env.vars:
+            self.st.oblige('loop%d-inv-%s:local-%s-is-%r-at-the-loop-head' % (k, when, name, t.v), BoolVal(self.env.vars[name] is t.v), tags=spec.tags)
     for item in spec.inv(self):
         self.st.oblige('loop%d-inv-%s:%s' % (k, when, item[0]), item[1], tags=item[2] if len(item) > 2 else spec.tags)
     if spec.checks is not None:
@@ -51,7 +55,13 @@ def _cut(self, k, spec, n, extra_targets=()):
     names = source.assigned_names(n.body) | set(extra_targets)
     for name in sorted(names):
         if name in spec.locals:
-            self.env.vars[name] = mk(self, spec.locals[name], 'lv_' + name)
+            t = spec.locals[name]
+            if isinstance(t, T.Const) and t.v is None:
+                # "irrelevant at the loop head": sound only if every iteration re-assigns it before reading it, so a
+                # read of the stale value is refused (engine.STALE) instead of being answered with None
+                self.env.vars[name] = STALE
+            else:
+                self.env.vars[name] = mk(self, t, 'lv_' + name)
         elif name in self.env.vars:
             self.env.vars[name] = havoc_like(self, self.env.vars[name], 'lv_' + name)
     mark = len(st.writes), len(st.memwrites)
